@@ -128,6 +128,20 @@ func runFuzz(c *core.Ctx, r *core.Result) {
 		dir := filepath.Join(c.TmpDir, "fuzz-"+t.name)
 		cache := filepath.Join(dir, "cache")
 		_ = os.MkdirAll(cache, 0o755)
+		// the seed corpus first, in process
+		seedFailed := false
+		for _, args := range FuzzSeeds(t.name) {
+			r.Eval(1)
+			if pi := runFuzzInput(t.name, args); pi != nil {
+				seedFailed = true
+				pc := fuzzCase(t.name, args)
+				pc.Stack = trim(pi.Stack)
+				r.Violate(fuzzSig(t.name, core.PanicSite(pi.Stack), args), fmt.Sprintf("panic: %s (seed corpus entry of %s)", pi.Val, t.name), pc)
+			}
+		}
+		if seedFailed {
+			continue
+		}
 		cmd := exec.Command(bin, "-test.run=^$", "-test.fuzz=^"+t.name+"$", fmt.Sprintf("-test.fuzztime=%dx", n),
 			"-test.fuzzcachedir="+cache, fmt.Sprintf("-test.parallel=%d", c.Workers), "-test.timeout=0")
 		cmd.Dir = dir
@@ -178,19 +192,7 @@ func runFuzz(c *core.Ctx, r *core.Result) {
 			if pi := runFuzzInput(t.name, args); pi != nil {
 				site := core.PanicSite(pi.Stack)
 				pc.Stack = trim(pi.Stack)
-				sig := "C09/panic/" + site
-				switch t.name {
-				case "FuzzParse":
-					if site == "atoi" || site == "extractXMLDataField" || site == "parseGroup" {
-						sig += "/" + classifyInput(args[0].([]byte))
-					}
-				case "FuzzStream":
-					sig = "C09/panic/stream/" + site
-				case "FuzzDictionary":
-					sig = "C09/panic/dictionary/" + site
-				case "FuzzSettings":
-					sig = "C09/panic/settings/" + site
-				}
+				sig := fuzzSig(t.name, site, args)
 				r.Violate(sig, fmt.Sprintf("panic: %s (found by coverage-guided fuzzing of %s)", pi.Val, t.name), pc)
 			} else {
 				pc.Stack = tail(text, 25)
@@ -249,4 +251,21 @@ func replayFuzz(c *core.Ctx, r *core.Result, raw []byte) {
 		}
 	}
 	fmt.Printf("%s input %q: no panic\n", target, pc.Input)
+}
+
+// fuzzSig gives a panic found through a fuzz target the signature the mutation parts use for the same entry point.
+func fuzzSig(target, site string, args []interface{}) string {
+	switch target {
+	case "FuzzStream":
+		return "C09/panic/stream/" + site
+	case "FuzzDictionary":
+		return "C09/panic/dictionary/" + site
+	case "FuzzSettings":
+		return "C09/panic/settings/" + site
+	}
+	sig := "C09/panic/" + site
+	if site == "atoi" || site == "extractXMLDataField" || site == "parseGroup" {
+		sig += "/" + classifyInput(args[0].([]byte))
+	}
+	return sig
 }
